@@ -4,6 +4,7 @@ spec/Map.tla is the contract; MC_Map checks its laws exhaustively for 4 keys x 3
 MC_MapGen generates every mutating history of length L (B2) with TLC-computed results;
 harness bin c06 drives ~50 subjects (type x config x hash profile); Trace_Map validates.
 """
+import concurrent.futures as cf
 import glob
 import json
 import os
@@ -32,10 +33,236 @@ def corrupt_len(run):
     return None
 
 
+# ---- corruptions of the event kinds of the coverage round.  Each one is chosen so that the contract MUST
+# reject the run whatever the state of the map is (a wrong result of a read, or an extra key 888888 that no
+# run uses and that the final len() of the run exposes).
+BOGUS = 888888
+
+
+def _first(run, pred):
+    for i, e in enumerate(run):
+        if pred(e):
+            return i
+    return None
+
+
+def corrupt_is_empty(run):
+    i = _first(run, lambda e: e.get("op") == "is_empty")
+    if i is None:
+        return None
+    run[i]["r"] = not run[i]["r"]
+    return run
+
+
+def corrupt_probe_empty(run):
+    i = _first(run, lambda e: e.get("op") == "probe" and "empty" in e)
+    if i is None:
+        return None
+    run[i]["empty"] = not run[i]["empty"]
+    return run
+
+
+def corrupt_iter_fast(run):
+    """an entry too many while nothing has been deleted yet (fast iteration must be exact then)"""
+    for i, e in enumerate(run):
+        if e.get("op") == "remove" and e.get("r"):
+            return None
+        if e.get("op") == "iter_fast" and e.get("r"):
+            e["r"] = e["r"] + [[BOGUS, 1]]
+            return run
+    return None
+
+
+def corrupt_iter_fast_lost(run):
+    """fast iteration loses the entry written by the insert just before it"""
+    for i, e in enumerate(run):
+        if e.get("op") == "iter_fast" and i > 0 and run[i - 1].get("op") == "insert" and run[i - 1].get("ok") and [run[i - 1]["k"], run[i - 1]["v"]] in e["r"]:
+            e["r"] = [p for p in e["r"] if p != [run[i - 1]["k"], run[i - 1]["v"]]]
+            return run
+    return None
+
+
+def _needs_final_len(run):
+    return run and run[-1].get("op") in ("len", "iter") and any(e.get("op") == "len" for e in run[-2:])
+
+
+def corrupt_insert_batch(run):
+    i = _first(run, lambda e: e.get("op") == "insert_batch" and e.get("ok"))
+    if i is None or not _needs_final_len(run) or any(e.get("op") == "panic" for e in run):
+        return None
+    run[i]["kv"] = run[i]["kv"] + [[BOGUS, 1]]
+    return run
+
+
+def corrupt_extend(run):
+    i = _first(run, lambda e: e.get("op") == "extend")
+    if i is None or not _needs_final_len(run) or any(e.get("op") in ("panic", "clear") for e in run[i:]) or any(e.get("op") == "retain" for e in run[i:]):
+        return None
+    run[i]["kv"] = run[i]["kv"] + [[BOGUS, 1]]
+    return run
+
+
+def corrupt_get_batch(run):
+    i = _first(run, lambda e: e.get("op") == "get_batch" and e.get("r"))
+    if i is None:
+        return None
+    run[i]["r"][0] = [] if run[i]["r"][0] else [1]
+    return run
+
+
+def corrupt_get_or_default(run):
+    i = _first(run, lambda e: e.get("op") == "get_or_default")
+    if i is None:
+        return None
+    run[i]["r"] += 1
+    return run
+
+
+def corrupt_get_or_insert(run):
+    i = _first(run, lambda e: e.get("op") == "get_or_insert" and e.get("ok"))
+    if i is None:
+        return None
+    run[i]["r"] += 1
+    return run
+
+
+def corrupt_get_or_insert_called(run):
+    i = _first(run, lambda e: e.get("op") == "get_or_insert" and e.get("ok") and e.get("called"))
+    if i is None:
+        return None
+    run[i]["called"] = [not run[i]["called"][0]]
+    return run
+
+
+def corrupt_retain_seen(run):
+    i = _first(run, lambda e: e.get("op") == "retain")
+    if i is None:
+        return None
+    run[i]["seen"] = run[i]["seen"] + [[BOGUS, 1]]
+    return run
+
+
+def corrupt_retain_kept(run):
+    """retain(keep none) reported as retain(keep all): a later read of the run must expose it"""
+    for i, e in enumerate(run):
+        if e.get("op") == "retain" and e.get("pk") == "all" and e.get("seen") and not e.get("mut"):
+            nxt = run[i + 1:]
+            if any(x.get("op") == "len" for x in nxt[:40]) and not any(x.get("op") == "panic" for x in run):
+                e["pk"] = "none"
+                return run
+    return None
+
+
+def corrupt_keys(run):
+    i = _first(run, lambda e: e.get("op") == "keys")
+    if i is None:
+        return None
+    run[i]["r"] = run[i]["r"] + [BOGUS]
+    return run
+
+
+def corrupt_values(run):
+    i = _first(run, lambda e: e.get("op") == "values" and e.get("r"))
+    if i is None:
+        return None
+    run[i]["r"][0] += 1
+    return run
+
+
+def corrupt_clone(run):
+    i = _first(run, lambda e: e.get("op") == "clone")
+    if i is None:
+        return None
+    run[i]["eq"] = [False]
+    return run
+
+
+def corrupt_twin(via):
+    def f(run):
+        i = _first(run, lambda e: e.get("via") == via and e.get("op") in ("get", "insert") and e.get("ok", True))
+        if i is None:
+            return None
+        run[i]["r"] = [] if run[i]["r"] else [1]
+        return run
+    return f
+
+
+def corrupt_contains_twin(run):
+    i = _first(run, lambda e: e.get("via") == "is_interned")
+    if i is None:
+        return None
+    run[i]["r"] = not run[i]["r"]
+    return run
+
+
+# (corruption, what, immediate): immediate = the corrupted event itself must be the rejected line
+NEW_SELFTESTS = [
+    (corrupt_is_empty, "is_empty() result flipped", True),
+    (corrupt_probe_empty, "is_empty() inside a probe flipped", True),
+    (corrupt_iter_fast, "iter_fast() yields an extra entry although nothing was deleted", True),
+    (corrupt_iter_fast_lost, "iter_fast() loses the entry just inserted", True),
+    (corrupt_insert_batch, "insert_batch() stores a pair that was not in the batch", False),
+    (corrupt_extend, "extend() stores a pair that was not given", False),
+    (corrupt_get_batch, "get_batch() answer of the first key flipped", True),
+    (corrupt_get_or_default, "get_or_default() result changed by +1", True),
+    (corrupt_get_or_insert, "value seen through get_or_insert() changed by +1", True),
+    (corrupt_get_or_insert_called, "get_or_insert_with(): closure-called flag flipped", True),
+    (corrupt_retain_seen, "retain() shows its predicate an entry that is not in the map", True),
+    (corrupt_retain_kept, "retain() drops entries its predicate kept", False),
+    (corrupt_keys, "keys() yields an extra key", True),
+    (corrupt_values, "values() yields a changed value", True),
+    (corrupt_clone, "clone() == original is false", True),
+    (corrupt_twin("get_fast"), "SmallMap<u8>::get_fast answer flipped", True),
+    (corrupt_twin("get_by_fast_str"), "HashStrMap::get_by_fast_str answer flipped", True),
+    (corrupt_twin("insert_string"), "HashStrMap::insert_string previous value flipped", True),
+    (corrupt_twin("insert_fast_str"), "HashStrMap::insert_fast_str previous value flipped", True),
+    (corrupt_contains_twin, "HashStrMap::is_interned answer flipped", True),
+]
+
+
+def parallel_selftests(ctx, files, tests):
+    """binding self-tests of the new event kinds: like ctx.selftest_corrupt (first run a corruption applies to,
+    corrupted copy must be REJECTED), but the TLC runs go in parallel.  For an immediate corruption the run is
+    cut after the corrupted event and exactly that line must be the rejected one."""
+    todo = list(tests)
+    jobs = []
+    for path in files:
+        if not todo:
+            break
+        runs = vlib.split_runs(vlib.read_ndjson(path))
+        for t in list(todo):
+            mutate, what, immediate = t
+            for run in runs:
+                mutated = mutate([json.loads(json.dumps(e)) for e in run])
+                if mutated is None:
+                    continue
+                expect = None
+                if immediate:
+                    at = [i for i, (x, y) in enumerate(zip(run, mutated)) if x != y][0]
+                    mutated = mutated[:at + 1]
+                    expect = at + 1
+                p = os.path.join(ctx.work, "selftest-x%d.ndjson" % len(jobs))
+                vlib.write_ndjson(p, mutated)
+                jobs.append((p, what, expect))
+                todo.remove(t)
+                break
+    if todo:
+        raise vlib.ToolError("binding self-test: no run suitable for corruption (%s)" % "; ".join(t[1] for t in todo))
+    with cf.ThreadPoolExecutor(max_workers=ctx.jobs) as ex:
+        results = list(ex.map(lambda j: vlib.validate_one(TRACE, j[0]), jobs))
+    for (p, what, expect), r in zip(jobs, results):
+        ok = (not r["accepted"]) and r["rejected_at"] is not None and (expect is None or r["rejected_at"] == expect)
+        ctx.cov["selftests"].append({"what": what, "rejected_as_expected": ok, "at": r["rejected_at"]})
+        if not ok:
+            raise vlib.ToolError("binding self-test failed: corrupted trace (%s) was not rejected where expected (%s): %s" % (what, expect, r))
+    vlib.log("self-tests ok: %d corruptions of the coverage-round event kinds all rejected" % len(jobs))
+
+
 def run(ctx):
     ctx.build(BIN)
     # --- the contract itself, exhaustively for small constants
     ctx.tlc_mc("MC_Map", required_actions=(), note="laws of the Map contract, 4 keys x 3 values")
+    ctx.tlc_mc("MC_Map", cfg="MC_MapX.cfg", workers=2, note="laws of the operations outside the property's list: a batch equals its insertions in order, retain only removes, get_or_insert")
     # --- mechanism model of ZiporaHashMap's standard storage (hash field = occupancy marker, tombstones):
     # the pinned code violates the contract (fixes b7b7e6f, 5f372e4, 222dea6), the repaired code refines it
     alt = "GetAgrees|InsertReturnAgrees|LenAgrees|IterAgrees"
@@ -59,6 +286,7 @@ def run(ctx):
     b1files = sorted(glob.glob(os.path.join(s1["_out"], "*.ndjson")))
     ctx.selftest_corrupt(TRACE, b1files[0], corrupt_insert_result, "returned value of a get/insert/remove changed by +1")
     ctx.selftest_corrupt(TRACE, b1files[0], corrupt_len, "len() result changed by +1")
+    parallel_selftests(ctx, b1files, NEW_SELFTESTS)
     # --- evidence
     cov = ctx.cov
     cov["evaluations"] = s1.get("events", 0) + s2.get("events", 0) + s2.get("executions", 0)
@@ -66,6 +294,7 @@ def run(ctx):
     cov["b2_executions"] = s2.get("executions", 0)
     cov["b1_events"] = s1.get("events", 0)
     cov["b1_runs"] = s1.get("runs", 0)
+    cov["b1_scenario_runs"] = sum(d.get("scenario_runs", 0) for d in s1.get("subjects", {}).values())
     cov["subjects"] = {}
     nontrivial = 0
     vacuous = []
@@ -84,7 +313,11 @@ def run(ctx):
                    "generated by TLC from MC_MapGen with the expected result and abstract state of every step, executed on every "
                    "subject (map type x config preset x hash profile); distinct = (subject, history) pairs executed, all contain at "
                    "least one mutating call.  B1: seeded random histories per subject over key universes 4/12/40/1500, every event "
-                   "validated by TLC against Map.tla.  exhaustive refers to the B2 history space." % ("5" if ctx.thorough else "4"))
+                   "validated by TLC against Map.tla; scripted histories per subject (fill through every growth trigger of the "
+                   "storages with a probe one below / at / one above, delete everything and refill, sliding window of "
+                   "delete+insert at the triggers, a 39-entry chain of deleted slots in front of a live key then reinsertion), "
+                   "maintenance calls (reserve, shrink_to_fit, revoke_deleted, clone, set_*) injected between the steps of both.  "
+                   "exhaustive refers to the B2 history space (subjects marked light take every 4th history)." % ("5" if ctx.thorough else "4"))
     if b1files:
         ctx.sample_from_trace(b1files[0], 10)
     b2files = sorted(glob.glob(os.path.join(s2["_out"], "*.ndjson")))
